@@ -803,6 +803,119 @@ def oracle_cli_name_format(arg, out):
             return '%s: nothing is wrong with the format string but the exit status is %r (%r)' % (name, st[1], text)
     return None
 
+# ---- plug-in selection: by file name (suffix) and by name, for every group, through the API and the
+#      three command lines
+PLUGIN_GROUPS = ['pybtex.database.input', 'pybtex.database.output', 'pybtex.backends', 'pybtex.style.formatting',
+                 'pybtex.style.labels', 'pybtex.style.names', 'pybtex.style.sorting']
+PLUGIN_VIAS = ['find_plugin(group, filename=F)', 'find_plugin(group, F)', 'database.parse_file(F)', 'BibliographyData.to_file(F)',
+               'format_database(in.bib, F)', 'convert(in.bib, F)', 'convert(F, out.bib)',
+               'pybtex-convert in.bib F', 'pybtex-format in.bib F', 'pybtex-convert F out.bib', 'pybtex -f F x.aux', 'pybtex-format -b F in.bib out.txt']
+
+def _run_cli(mainf, argv):
+    E, buf = reset_state(1, 0)
+    old = sys.argv
+    sys.argv = argv
+    try:
+        mainf()
+        st = [2]
+    except SystemExit as ex:
+        st = [0, 0 if ex.code is None else ex.code] if (ex.code is None or isinstance(ex.code, int)) else [0, 1]
+    except Exception as ex:
+        st = [2, norm(type(ex).__name__)]
+    finally:
+        sys.argv = old
+    return ['cli', st, norm(buf.getvalue())]
+
+def impl_plugin_select(arg):
+    via, gi, name = arg[0], arg[1], S(arg[2])
+    from pybtex.exceptions import PybtexError
+    from pybtex.errors import format_error
+    d = tempfile.mkdtemp(prefix='c16p')
+    cwd = os.getcwd()
+    try:
+        os.chdir(d)
+        _tmpfile(d, 'in.bib', '@misc{k, author = {A B}, title = {T}}\n')
+        _tmpfile(d, 'x.aux', '\\citation{k}\n\\bibdata{in}\n\\bibstyle{x}\n')
+        _tmpfile(d, 'x.bst', 'ENTRY {author}{}{}\nFUNCTION {f} { author write$ newline$ }\nREAD\nITERATE {f}\n')
+        rel = name
+        if '\x00' in rel or len(rel.encode('utf-8', 'replace')) > 200:
+            return [9]
+        group = PLUGIN_GROUPS[gi % len(PLUGIN_GROUPS)]
+        if via >= 7:
+            if via == 7:
+                from pybtex.database.convert.__main__ import main as m
+                return _run_cli(m, ['pybtex-convert', 'in.bib', rel])
+            if via == 8:
+                from pybtex.database.format.__main__ import main as m
+                return _run_cli(m, ['pybtex-format', 'in.bib', rel])
+            if via == 9:
+                from pybtex.database.convert.__main__ import main as m
+                return _run_cli(m, ['pybtex-convert', rel, 'out.bib'])
+            if via == 10:
+                from pybtex.__main__ import main as m
+                return _run_cli(m, ['pybtex', '-f', rel, 'x.aux'])
+            from pybtex.database.format.__main__ import main as m
+            return _run_cli(m, ['pybtex-format', '-b', rel, 'in.bib', 'out.txt'])
+        def thunk():
+            import pybtex.database as D
+            from pybtex.plugin import find_plugin
+            if via == 0:
+                return find_plugin(group, filename=rel)
+            if via == 1:
+                return find_plugin(group, rel)
+            if via == 2:
+                return D.parse_file(rel)
+            if via == 3:
+                return D.parse_file('in.bib').to_file(rel)
+            if via == 4:
+                from pybtex.database.format import format_database
+                return format_database('in.bib', rel)
+            from pybtex.database.convert import convert
+            return convert('in.bib', rel) if via == 5 else convert(rel, 'out.bib')
+        reset_state(1, 0)
+        try:
+            thunk()
+            return ['api', [0]]
+        except PybtexError as e:
+            return ['api', [1, norm(type(e).__name__), _render_now(e)]]
+        except Exception as ex:
+            return ['api', [2, norm(type(ex).__name__)]]
+    except OSError:
+        return [9]
+    finally:
+        os.chdir(cwd)
+        shutil.rmtree(d, ignore_errors=True)
+        reset_state(1, 0)
+
+def oracle_plugin_select(arg, out):
+    if out == [9]:
+        return None
+    via, gi, name = arg[0], arg[1], S(arg[2])
+    what = '%s with F = %r' % (PLUGIN_VIAS[via], name) + (' in group %s' % PLUGIN_GROUPS[gi % len(PLUGIN_GROUPS)] if via < 2 else '')
+    if out[0] == 'cli':
+        st, text = out[1], S(out[2])
+        if st[0] != 0:
+            return '%s: the command line dies with %s (traceback) instead of printing an error' % (what, S(st[1]) if len(st) > 1 else 'an exception')
+        if st[1] != 0 and 'error' not in text.lower() and 'usage' not in text.lower():
+            return '%s: exit status %r without an error message' % (what, st[1])
+        return None
+    r = out[1]
+    if r[0] == 2:
+        return '%s raises %s instead of a pybtex error' % (what, S(r[1]))
+    if r[0] == 1:
+        if r[2][0] != 0:
+            return '%s: the pybtex error cannot be rendered' % what
+        text = S(r[2][1])
+        if S(r[1]) in ('PluginNotFound', 'PluginGroupNotFound'):
+            # the error names what was asked for: the group, and the name / the suffix of the file name
+            asked_group = {2: 'pybtex.database.input', 3: 'pybtex.database.output', 4: 'pybtex.backends', 5: 'pybtex.database.output', 6: 'pybtex.database.input'}.get(via, PLUGIN_GROUPS[gi % len(PLUGIN_GROUPS)])
+            if asked_group not in text:
+                return '%s: the error %r does not name the plug-in group' % (what, text)
+            asked = name if via == 1 else os.path.splitext(name)[1]
+            if asked and asked not in text:
+                return '%s: the error %r does not name %r' % (what, text, asked)
+    return None
+
 def oracle_real(out):
     if out == [9]:
         return None
@@ -845,6 +958,7 @@ FUNCS = {
     10: ('parse_string(.bib) in strict / non-strict / capture mode: renderings of every problem', impl_real_bib, 'S'),
     11: ('.bst parsed and run in strict / non-strict / capture mode: renderings of every problem', impl_real_bst, 'S'),
     12: ('.aux parsed in strict / non-strict / capture mode: renderings of every problem', impl_real_aux, 'S'),
+    20: ('plug-in selection by file name / by name through the API and the pybtex, pybtex-convert, pybtex-format command lines', impl_plugin_select, ('T', 'N', 'N', 'S')),
     19: ('pybtex command line on a generated .bst: format.name$ with the given format string', impl_cli_name_format, 'S'),
     17: ('a problem whose message embeds a given piece of user-controlled text, in the three modes', impl_targeted, ('T', 'N', 'S')),
     14: ('Parser().parse_file(bytes path of a .bib) in the three modes', impl_real_bib_bytes, ('T', 'X', 'S')),
@@ -859,7 +973,7 @@ def canon(fn, out):
     """compare only what the property talks about: whether an error renders, which problems went
     where and in which order, the mode cells, the exit status -- never the wording of a message
     (the oracle checks, within the implementation, that renderings contain the message)"""
-    if fn in (10, 11, 12, 14, 15, 16, 17, 19):
+    if fn in (10, 11, 12, 14, 15, 16, 17, 19, 20):
         return []        # not modelled: the parsers belong to C10/C15/C20; oracle only
     try:
         if fn in (1, 2, 3):
@@ -1087,6 +1201,8 @@ def oracle_cmdline(arg, out):
     return None
 
 def oracle(fn, arg, out):
+    if fn == 20:
+        return oracle_plugin_select(arg, out)
     if fn == 19:
         return oracle_cli_name_format(arg, out)
     if fn == 17:
@@ -1271,6 +1387,16 @@ def gen_real(quick, rng):
         f_ = ''.join(rng.choice(['{', '}', 'f', 'l', 'v', 'j', 'ff', 'll', '_', ',', ' ', '~', '.', '1', 'a', 'é', '{ff}', '{ll}']) for _ in range(rng.randint(1, 7)))
         yield ('cli_name_format', 19, f_)
         yield ('real_bst', 11, 'FUNCTION {f} { "Donald E. Knuth" #1 "%s" format.name$ write$ }\nEXECUTE {f}\n' % f_)
+    # ---- plug-in selection by file name: no extension, trailing dot, dot-file, empty name, unknown and known
+    #      extensions, directory with a dot -- for every group and through the three command lines
+    PF = ['refs', 'refs.', '.bib', '', 'a.b/refs', 'refs.nosuch', 'refs.BIB', 'out.bib', 'out.yaml', 'out.html', 'out.tex', 'out.txt',
+          'r{0}.%s', 'é', '..', 'a..', '.', 'noext{0}', 'x.bibtex', 'plain', 'nosuch', 'unsrt']
+    for name in PF:
+        for gi in range(len(PLUGIN_GROUPS)):
+            yield ('plugin_select', 20, [0, gi, name])
+            yield ('plugin_select', 20, [1, gi, name])
+        for via in range(2, len(PLUGIN_VIAS)):
+            yield ('plugin_select', 20, [via, 0, name])
     # ---- hostile text inside the corrupted real inputs as well
     for i in range(NR // 2):
         t = BIB + tail
@@ -1506,7 +1632,7 @@ def nontrivial(fn, arg, out):
         return out[0] == 1
     if fn == 8:
         return len(out) >= 2
-    if fn in (10, 11, 12, 14, 15, 16, 17, 19):
+    if fn in (10, 11, 12, 14, 15, 16, 17, 19, 20):
         return True
     return True
 
@@ -1533,6 +1659,8 @@ def describe(fn, arg):
     if fn == 13:
         return {'constructor': ['PybtexError(message, filename)', 'PybtexSyntaxError(message, parser)', 'PrematureEOF(parser)', 'TokenRequired(description, Scanner)', 'TokenRequired(description, LowLevelParser)', 'AuxDataError(message, context)', 'TokenRequired(description, line-less scanner)', 'PybtexSyntaxError(message, line-less scanner)'][arg[0]],
                 'args': [S(x) if isinstance(x, list) and x and all(isinstance(c, int) for c in x) else x for x in arg[1:]]}
+    if fn == 20:
+        return {'call': PLUGIN_VIAS[arg[0]], 'group': PLUGIN_GROUPS[arg[1] % len(PLUGIN_GROUPS)] if arg[0] < 2 else None, 'F': S(arg[2])}
     if fn == 19:
         return {'format.name$ format string': S(arg)}
     if fn == 17:
@@ -1581,7 +1709,12 @@ def _sig_F27(kind, fn, arg, detail):
         return bool(m) and any(o[0] == 5 and o[1][0] == int(m.group(1)) and o[1][2] == [1] for o in arg[2])
     return False
 
-KNOWN_SIGNATURES = {'F27': _sig_F27}
+def _sig_F32(kind, fn, arg, detail):
+    # a plug-in asked for by a name with a leading period: AssertionError in PluginNotFound.__init__
+    return (kind == 'oracle' and fn == 20 and arg[0] in (1, 10, 11) and S(arg[2]).startswith('.')
+            and 'AssertionError' in str(detail))
+
+KNOWN_SIGNATURES = {'F27': _sig_F27, 'F32': _sig_F32}
 
 def run_bst(prog):
     """run a .bst program through the real interpreter; returns the PybtexError raised or None"""
@@ -1596,6 +1729,16 @@ def run_bst(prog):
     return None
 
 def replay_known(finding):
+    if finding['id'] == 'F32':
+        from pybtex.plugin import find_plugin
+        from pybtex.exceptions import PybtexError
+        try:
+            find_plugin('pybtex.database.input', '.bib')
+            return None
+        except PybtexError:
+            return None
+        except Exception as ex:
+            return "find_plugin('pybtex.database.input', '.bib') raises %s" % type(ex).__name__
     if finding['id'] == 'F27':
         from pybtex.errors import format_error
         e = run_bst(finding['bst'])
